@@ -55,7 +55,7 @@ LEVEL_NOTE = ('Trusted: the _simple reference implementations shipped with '
               'are asserted for the callback clause only, not for '
               'resumption.')
 DESIGN_REF = 'DESIGN.md section 5, C11'
-BUDGET = {'quick': 1600, 'thorough': 30000}
+BUDGET = {'quick': 4000, 'thorough': 40000}
 TOL_PAIR = 1e-10
 TOL_EXACT = 1e-12
 TOLERANCES = {
